@@ -19,6 +19,7 @@ type PrintOpts struct {
 	AugRebind  bool   // x += e -> x = x + (e);  x.append(e) -> x = x + [e]   (python side: emulate asp's rebinding)
 	RetCopy    bool   // return e -> return _dc(e)      (functions hand out deep copies; C17)
 	FoldCase   bool   // string literals: characters whose upper/lower case is more than one character (ß) -> "b"
+	ConfigCopy bool   // CONFIG[k] -> _dc(CONFIG[k])    (private copies of what is read from CONFIG; C17)
 }
 
 func (o PrintOpts) needsTree() bool { return o.Mod || o.AddCopy }
@@ -296,6 +297,9 @@ func (p *printer) expr(e *E, pos bool) string {
 	case "m":
 		return p.expr(e.A[0], false) + "." + e.S + "(" + strings.Join(p.args(e.A[1:], e.Kw), ", ") + ")"
 	case "x":
+		if p.o.ConfigCopy && e.A[0].K == "n" && e.A[0].S == "CONFIG" {
+			return "_dc(CONFIG[" + p.expr(e.A[1], true) + "])"
+		}
 		return p.expr(e.A[0], false) + "[" + p.expr(e.A[1], true) + "]"
 	case "sl":
 		s := p.expr(e.A[0], false) + "["
